@@ -4,7 +4,8 @@ use super::PropResult;
 use crate::core::*;
 use crate::model::calendar as cal;
 use crate::model::instant::*;
-use astrolabe::{Date, DateTime, DateUtilities, Offset, OffsetUtilities, Time, TimeUtilities};
+use super::diff::*;
+use astrolabe::{DateTime, DateUtilities, Offset, OffsetUtilities, Time, TimeUtilities};
 use serde_json::json;
 use std::time::Duration;
 
@@ -67,14 +68,6 @@ pub fn gen_count(rng: &mut Rng, i: i128, unit: i128, dir: i128) -> (u32, &'stati
     }
 }
 
-fn era_of(i: i128) -> &'static str {
-    if i < 0 {
-        "BC"
-    } else {
-        "AD"
-    }
-}
-
 fn judge_method(rec: &mut Rec, i: i128, off: i32, m: usize, c: u32, stratum: &'static str) {
     rec.eval();
     let (name, unit, dir) = METHODS[m];
@@ -90,33 +83,10 @@ fn judge_method(rec: &mut Rec, i: i128, off: i32, m: usize, c: u32, stratum: &'s
     if c > 100 || !ok || crossing || i < 0 {
         rec.nontrivial(hash_i128s(&[i, off as i128, m as i128, c as i128]));
     }
-    let r = trap(|| {
-        let dt = mk_off(i, off);
-        let res = apply_method(&dt, m, c);
-        (read(&res), offset_secs(&res), read_via_timestamp(&res.set_offset(Offset::Fixed(0))))
-    });
     let wit = |obs: serde_json::Value| {
         json!({"start": show(i), "offset": off, "call": format!("{}({})", name, c), "model_result": if ok { json!(show(target)) } else { json!("unrepresentable") }, "observed": obs})
     };
-    match (r, ok) {
-        (Ok((got, o, got2)), true) => {
-            rec.outcome("value");
-            if got != target || got2 != target {
-                rec.violation(format!("C04|methods|DateTime::{}|wrong-instant", name), || wit(json!({"instant": show(got), "off_by_ns": (got - target).to_string()})));
-            } else if o != Some(off) {
-                rec.violation(format!("C04|methods|DateTime::{}|offset-changed", name), || wit(json!({"offset": format!("{:?}", o)})));
-            }
-        }
-        (Ok((got, _, _)), false) => {
-            rec.outcome("value");
-            rec.violation(format!("C04|methods|DateTime::{}|returned-when-unrepresentable", name), || wit(json!({"instant": show(got)})));
-        }
-        (Err(p), true) => {
-            rec.outcome(if p.class == "Arith" { "panic-arith" } else { "panic" });
-            rec.violation(format!("C04|methods|DateTime::{}|panic-when-representable|{},{}", name, p.class, p.site()), || wit(p.to_json()));
-        }
-        (Err(p), false) => rec.outcome(if p.class == "Arith" { "refused(panic-arith)" } else { "refused(panic)" }),
-    }
+    judge_dt(rec, &format!("C04|methods|DateTime::{}", name), (i, off), if ok { Expect::Value(target, off) } else { Expect::Refuse }, |dt| Ran::Returned(apply_method(dt, m, c)), wit);
     if rec.want_sample() {
         rec.sample(|| wit(json!("(see verdict)")));
     }
@@ -162,38 +132,31 @@ fn judge_duration(rec: &mut Rec, i: i128, off: i32, dir: i128, d: Duration, stra
         rec.bin("crosses-0001-01-01");
     }
     rec.nontrivial(hash_i128s(&[i, off as i128, dir, amount, assign as i128]));
-    let r = trap(|| {
-        let dt = mk_off(i, off);
-        let res = if assign {
-            let mut x = dt;
-            if dir > 0 {
-                x += d;
-            } else {
-                x -= d;
-            }
-            x
-        } else if dir > 0 {
-            dt + d
-        } else {
-            dt - d
-        };
-        (read(&res), offset_secs(&res), res.as_hms().0 as u64 * 3_600_000_000_000)
-    });
     let wit = |obs: serde_json::Value| json!({"start": show(i), "offset": off, "op": name, "duration": format!("{:?}", d), "model_result": if ok { json!(show(target)) } else { json!("unrepresentable") }, "observed": obs});
-    match (r, ok) {
-        (Ok((got, o, tod)), true) => {
-            if got != target {
-                rec.violation(format!("C04|operators|{}|wrong-instant|start-era={},result-era={}", name, era_of(i), era_of(target)), || wit(json!({"instant_ns": got.to_string(), "off_by_ns": (got - target).to_string()})));
-            } else if o != Some(off) {
-                rec.violation(format!("C04|operators|{}|offset-changed", name), || wit(json!({"offset": format!("{:?}", o)})));
-            } else if tod >= D as u64 {
-                rec.violation(format!("C04|operators|{}|day-nanoseconds-out-of-day", name), || wit(json!({"time_of_day_ns": tod})));
-            }
-        }
-        (Ok((got, _, _)), false) => rec.violation(format!("C04|operators|{}|returned-when-unrepresentable", name), || wit(json!({"instant_ns": got.to_string()}))),
-        (Err(p), true) => rec.violation(format!("C04|operators|{}|panic-when-representable|{},{}", name, p.class, p.site()), || wit(p.to_json())),
-        (Err(_), false) => rec.outcome("refused(panic)"),
-    }
+    let sig = format!("C04|operators|{}", name);
+    judge_dt(
+        rec,
+        &sig,
+        (i, off),
+        if ok { Expect::Value(target, off) } else { Expect::Refuse },
+        |dt| {
+            let dt = *dt;
+            Ran::Returned(if assign {
+                let mut x = dt;
+                if dir > 0 {
+                    x += d;
+                } else {
+                    x -= d;
+                }
+                x
+            } else if dir > 0 {
+                dt + d
+            } else {
+                dt - d
+            })
+        },
+        wit,
+    );
     if rec.want_sample() {
         rec.sample(|| wit(json!("(see verdict)")));
     }
@@ -212,39 +175,32 @@ fn judge_time_op(rec: &mut Rec, i: i128, off: i32, dir: i128, tn: u64, toff: i32
     let ok = representable(target);
     rec.bin_s(format!("{}/{}", name, if ok { "representable" } else { "unrepresentable" }));
     rec.nontrivial(hash_i128s(&[i, off as i128, dir, tn as i128, toff as i128, assign as i128]));
-    let r = trap(|| {
-        let dt = mk_off(i, off);
-        let t = Time::from_nanos(tn).unwrap().set_offset(Offset::Fixed(toff));
-        let res = if assign {
-            let mut x = dt;
-            if dir > 0 {
-                x += t;
-            } else {
-                x -= t;
-            }
-            x
-        } else if dir > 0 {
-            dt + t
-        } else {
-            dt - t
-        };
-        (read(&res), offset_secs(&res), res.as_hms().0 as u64 * 3_600_000_000_000)
-    });
     let wit = |obs: serde_json::Value| json!({"start": show(i), "offset": off, "op": name, "time_as_nanos": tn, "time_offset": toff, "model_result": if ok { json!(show(target)) } else { json!("unrepresentable") }, "observed": obs});
-    match (r, ok) {
-        (Ok((got, o, tod)), true) => {
-            if got != target {
-                rec.violation(format!("C04|operators|{}|wrong-instant|start-era={},result-era={}", name, era_of(i), era_of(target)), || wit(json!({"instant_ns": got.to_string(), "off_by_ns": (got - target).to_string()})));
-            } else if o != Some(off) {
-                rec.violation(format!("C04|operators|{}|offset-changed", name), || wit(json!({"offset": format!("{:?}", o)})));
-            } else if tod >= D as u64 {
-                rec.violation(format!("C04|operators|{}|day-nanoseconds-out-of-day", name), || wit(json!({"time_of_day_ns": tod})));
-            }
-        }
-        (Ok((got, _, _)), false) => rec.violation(format!("C04|operators|{}|returned-when-unrepresentable", name), || wit(json!({"instant_ns": got.to_string()}))),
-        (Err(p), true) => rec.violation(format!("C04|operators|{}|panic-when-representable|{},{}", name, p.class, p.site()), || wit(p.to_json())),
-        (Err(_), false) => rec.outcome("refused(panic)"),
-    }
+    let sig = format!("C04|operators|{}", name);
+    judge_dt(
+        rec,
+        &sig,
+        (i, off),
+        if ok { Expect::Value(target, off) } else { Expect::Refuse },
+        |dt| {
+            let dt = *dt;
+            let t = Time::from_nanos(tn).unwrap().set_offset(Offset::Fixed(toff));
+            Ran::Returned(if assign {
+                let mut x = dt;
+                if dir > 0 {
+                    x += t;
+                } else {
+                    x -= t;
+                }
+                x
+            } else if dir > 0 {
+                dt + t
+            } else {
+                dt - t
+            })
+        },
+        wit,
+    );
 }
 
 fn judge_date(rec: &mut Rec, day: i64, kind: u8, c: u32, d: Duration) {
@@ -262,25 +218,25 @@ fn judge_date(rec: &mut Rec, day: i64, kind: u8, c: u32, d: Duration) {
     let ok = (cal::MIN_DAY as i128..=cal::MAX_DAY as i128).contains(&target);
     rec.bin_s(format!("{}/{}", name, if ok { "representable" } else { "unrepresentable" }));
     rec.nontrivial(hash_i128s(&[day as i128, kind as i128, c as i128, d.as_secs() as i128]));
-    let r = trap(|| {
-        let dt = Date::from_timestamp((day - cal::DAYS_TO_1970) * 86_400);
-        let res = match kind {
-            0 => dt.add_days(c),
-            1 => dt.sub_days(c),
-            2 => dt + d,
-            3 => dt - d,
-            4 => {
-                let mut x = dt;
-                x += d;
-                x
-            }
-            _ => {
-                let mut x = dt;
-                x -= d;
-                x
-            }
-        };
-        res.timestamp() / 86_400 + cal::DAYS_TO_1970
+    let Some(dt) = sane_date(day) else {
+        rec.bin(SKIP_START);
+        return;
+    };
+    let r = trap(|| match kind {
+        0 => dt.add_days(c),
+        1 => dt.sub_days(c),
+        2 => dt + d,
+        3 => dt - d,
+        4 => {
+            let mut x = dt;
+            x += d;
+            x
+        }
+        _ => {
+            let mut x = dt;
+            x -= d;
+            x
+        }
     });
     let wit = |obs: serde_json::Value| {
         let s = cal::ymd(day);
@@ -288,12 +244,13 @@ fn judge_date(rec: &mut Rec, day: i64, kind: u8, c: u32, d: Duration) {
     };
     let big = if delta.abs() >= (1i128 << 31) { "delta>=2^31" } else { "delta<2^31" };
     match (r, ok) {
-        (Ok(got), true) => {
-            if got as i128 != target {
-                rec.violation(format!("C04|date|{}|wrong-day|{}", name, big), || wit(json!({"day": got})));
-            }
-        }
-        (Ok(got), false) => rec.violation(format!("C04|date|{}|returned-when-unrepresentable|{}", name, big), || wit(json!({"day": got}))),
+        (Ok(res), true) => match diff_date(&res, target as i64) {
+            Ok(DateDiff::Skip) => rec.bin(SKIP_EXPECTED),
+            Ok(DateDiff::Same) => {}
+            Ok(DateDiff::Differs(got, exp)) => rec.violation(format!("C04|date|{}|wrong-day|{}", name, big), || wit(json!({"result_reads": got, "independently_built_expected_reads": exp}))),
+            Err(p) => rec.violation(format!("C04|date|{}|result-unreadable|{},{}", name, p.class, p.site()), || wit(p.to_json())),
+        },
+        (Ok(res), false) => rec.violation(format!("C04|date|{}|returned-when-unrepresentable|{}", name, big), || wit(json!({"result_reads": trap(|| date_reads(&res)).unwrap_or_default()}))),
         (Err(p), true) => rec.violation(format!("C04|date|{}|panic-when-representable|{},{}", name, p.class, p.site()), || wit(p.to_json())),
         (Err(_), false) => rec.outcome("refused(panic)"),
     }
